@@ -81,6 +81,10 @@ type Enc struct {
 	curFn     *ssa.Function
 	assumed   []string // names of assumptions used (trusted models)
 	pendingFI []pendingStore
+	autoObls  []*Obligation
+	curSig    *types.Signature
+	frameAllowed map[string][]string // declared modifies targets (entry-state index terms) by heap key
+	frameWhole   map[string]bool
 }
 
 type pendingStore struct {
@@ -133,6 +137,7 @@ type frame struct {
 	loopSpecs map[*ssa.BasicBlock]*LoopSpec
 	autoInvs  map[*ssa.BasicBlock][]autoInvRec
 	preLoop   map[*ssa.BasicBlock]*State
+	autoFrames map[*ssa.BasicBlock][]autoFrame
 }
 
 type namedDef struct {
@@ -361,10 +366,19 @@ func (e *Enc) fieldRef(st *State, structT types.Type, i int, base string) string
 	fn := fmt.Sprintf("fa_%s_%d", structKey(structT), i)
 	e.v.declFun(fn, "(Int) Int")
 	e.v.declFun("inv_"+fn, "(Int) Int")
+	e.v.declFun("broot", "(Int) Int")
 	t := "(" + fn + " " + base + ")"
-	// pseudo-refs are negative and injective
-	st.assume("(and (< " + t + " 0) (= (inv_" + fn + " " + t + ") " + base + "))")
+	// pseudo-refs are negative, injective, and remember the object they are
+	// part of (instances of satisfiable axioms about uninterpreted functions)
+	if !strings.Contains(base, "?") { // no bound variable inside
+		e.q.axiom("(and (< " + t + " 0) (= (inv_" + fn + " " + t + ") " + base + ") (= (broot " + t + ") " + rootOf(base) + "))")
+	}
 	return t
+}
+
+// rootOf: the allocated object a (possibly pseudo-) reference belongs to.
+func rootOf(r string) string {
+	return "(ite (>= " + r + " 0) " + r + " (broot " + r + "))"
 }
 
 // ptrAddr returns the lvalue a pointer value designates.
@@ -456,7 +470,7 @@ func (e *Enc) storePtr(st *State, p Value, v Value, pos token.Pos) {
 
 func (e *Enc) newFrame(fn *ssa.Function, prefix string) *frame {
 	fr := &frame{fn: fn, vals: map[ssa.Value]Value{}, prefix: prefix, enc: e, inEdges: map[*ssa.BasicBlock][]edgeArm{},
-		namedDefs: map[string][]namedDef{}, autoInvs: map[*ssa.BasicBlock][]autoInvRec{}, preLoop: map[*ssa.BasicBlock]*State{}}
+		namedDefs: map[string][]namedDef{}, autoInvs: map[*ssa.BasicBlock][]autoInvRec{}, preLoop: map[*ssa.BasicBlock]*State{}, autoFrames: map[*ssa.BasicBlock][]autoFrame{}}
 	fr.loops = findLoops(fn)
 	return fr
 }
